@@ -440,10 +440,52 @@ class Engine:
 
     def subst_pinned(self, goal, pc):
         """integer terms under non-linear operators that the path pins to a single value are replaced by it
-        (in the goal and in the path condition) - the path condition still carries the pinning facts"""
-        cands = {}
-        todo = [goal] + [c for c in pc if not is_light(c)]
-        seen = set()
+        (in the goal and in the path condition) - the path condition still carries the pinning facts.
+        The walk over the path condition, the pinned values and the substituted path condition are cached per path and
+        path-condition length (the obligations of one exit point share them); the result is the same as without the cache."""
+        p = self.path
+        ent = p.ghost.get("_subst_pinned")
+        n = len(pc)
+        if ent is not None and ent["n"] <= n and (ent["n"] == 0 or pc[ent["n"] - 1] is ent["last"]):
+            if ent["n"] < n:
+                # the path condition was extended (clause evaluation adds definitions): walk only the new conjuncts
+                self._pin_walk([c for c in pc[ent["n"]:] if not is_light(c)], ent["seen"], ent["cands"])
+                ent["unpinned"] = set()  # 'not pinned' is only known for the shorter path condition
+                ent["n"], ent["last"] = n, pc[-1]
+        else:
+            ent = dict(n=n, last=pc[-1] if pc else None, cands={}, seen=set(), pinned={}, unpinned=set(), pcsub={})
+            self._pin_walk([c for c in pc if not is_light(c)], ent["seen"], ent["cands"])
+            p.ghost["_subst_pinned"] = ent
+        cands = dict(ent["cands"])
+        self._pin_walk([goal], set(ent["seen"]), cands)
+        if not cands:
+            return goal, pc
+        from . import builtins_model as bm2
+
+        subs = []
+        for uid, u in cands.items():
+            if uid in ent["unpinned"]:
+                continue
+            if uid not in ent["pinned"]:
+                v = bm2.pinned_int(self, u)
+                if isinstance(v, int):
+                    ent["pinned"][uid] = v  # stays pinned when the path condition grows
+                else:
+                    ent["unpinned"].add(uid)
+                    continue
+            subs.append((u, z3.IntVal(ent["pinned"][uid])))
+        if not subs:
+            return goal, pc
+        goal = z3.simplify(z3.substitute(goal, *subs))
+        key = tuple(sorted(u.get_id() for u, _ in subs))
+        done = ent["pcsub"].setdefault(key, [])
+        for c in pc[len(done):]:
+            done.append(c if is_light(c) else z3.substitute(c, *subs))
+        return goal, done[:n] + [u == v for u, v in subs]
+
+    @staticmethod
+    def _pin_walk(todo, seen, cands):
+        todo = list(todo)
         while todo:
             t = todo.pop()
             if t.get_id() in seen or z3.is_quantifier(t):
@@ -458,21 +500,6 @@ class Engine:
                         if z3.is_int(u) and not z3.is_int_value(u):
                             cands[u.get_id()] = u
                 todo.extend(t.children())
-        if not cands:
-            return goal, pc
-        from . import builtins_model as bm2
-
-        subs = []
-        for u in cands.values():
-            v = bm2.pinned_int(self, u)
-            if isinstance(v, int):
-                subs.append((u, z3.IntVal(v)))
-        if not subs:
-            return goal, pc
-        goal = z3.simplify(z3.substitute(goal, *subs))
-        facts = [u == v for u, v in subs]
-        pc = [c if is_light(c) else z3.substitute(c, *subs) for c in pc] + facts
-        return goal, pc
 
     # ------------------------------------------------------------------ sums (spec level)
     def sum_axioms(self):
